@@ -4,6 +4,7 @@ import (
 	"bytes"
 	"errors"
 	"fmt"
+	"runtime"
 	"strings"
 
 	wire "github.com/jeroenrinzema/psql-wire"
@@ -23,8 +24,8 @@ type c02 struct{ base }
 
 func init() {
 	core.Register(c02{base{id: "C02", level: "exploration", quickB: 16, thoroughB: 32,
-		rule: "three workloads, one oracle: the strict independent backend parser (harness/pg) must consume the whole server-to-client byte stream of every connection (known type byte, length = 4 + body, per-type grammar consumed exactly, counts match items, C-strings terminated, ErrorResponse = known field codes + text then one zero byte and nothing after, SQLSTATE 5x[0-9A-Z], line decimal, severity from the defined set, format codes 0/1, no partial message at the end). (a) handler programs from a grammar: 0-40 columns with arbitrary NUL-free unicode names over all supported OIDs, rows of right and wrong arity, encodable / unencodable / partially encodable values (frame abandoned half-way), NULL forms, arbitrary NUL-free command tags, errors decorated with every subset of code/severity/hint/detail/source/constraint, rows after completion, COPY-in responses, via simple and extended protocol with result formats; (b) hostile client input: structure-aware mutations of canonical sessions (as in C04) incl. SSLRequest/password phases; (c) direct model-based test of the public buffer.Writer API: random Start/Add*/End/Reset sequences over a sink that fails transiently - every successful End must deliver exactly one frame and a failed or abandoned frame must contribute nothing to later frames. Non-trivial = program with an abandoned row, a decorated error, unicode names, or a mutated input; distinct = program shape / mutation shape / writer-op sequence.",
-		need:        []string{"connections_parsed", "backend_messages_parsed", "abandoned_rows", "decorated_errors", "hostile_inputs", "writer_sequences", "writer_failed_ends"},
+		rule:        "three workloads, one oracle: the strict independent backend parser (harness/pg) must consume the whole server-to-client byte stream of every connection (known type byte, length = 4 + body, per-type grammar consumed exactly, counts match items, C-strings terminated, ErrorResponse = known field codes + text then one zero byte and nothing after, SQLSTATE 5x[0-9A-Z], line decimal, severity from the defined set, format codes 0/1, no partial message at the end). (a) handler programs from a grammar: 0-40 columns with arbitrary NUL-free unicode names over all supported OIDs, rows of right and wrong arity, encodable / unencodable / partially encodable values (frame abandoned half-way), NULL forms, arbitrary NUL-free command tags, errors decorated with every subset of code/severity/hint/detail/source/constraint, rows after completion, COPY-in responses, via simple and extended protocol with result formats; (b) hostile client input: structure-aware mutations of canonical sessions (as in C04) incl. SSLRequest/password phases; (c) direct model-based test of the public buffer.Writer API: random Start/Add*/End/Reset sequences over a sink that fails transiently - every successful End must deliver exactly one frame and a failed or abandoned frame must contribute nothing to later frames. Non-trivial = program with an abandoned row, a decorated error, unicode names, or a mutated input; distinct = program shape / mutation shape / writer-op sequence.",
+		need:        []string{"close_during_traffic_rounds", "connections_parsed", "backend_messages_parsed", "abandoned_rows", "decorated_errors", "hostile_inputs", "writer_sequences", "writer_failed_ends"},
 		assumptions: append([]string{"strings handed to the library by the handler are NUL-free (a C-string cannot carry NUL); column counts stay below 32768; buffer.Writer sequences always Start a frame before adding to or ending it (End without Start is API misuse)"}, commonAssumptions...)}})
 }
 
@@ -303,6 +304,64 @@ func (ch c02) Run(c *core.Ctx) {
 		conn.WaitClosed()
 		c.Eval("huge parameter counts", true)
 		strict(conn, "Describe of statements with 32767..65535+ parameters", map[string]any{"workload": "huge parameter counts"})
+	}
+	// (e) Server.Close while connections are being served: whatever the server sends around its
+	// shutdown, every connection's output stays a concatenation of complete messages
+	nclose := 6
+	if c.Tier == "thorough" {
+		nclose = 300
+	}
+	for i := 0; i < nclose; i++ {
+		if !c.Begin(3000000+i) || c.NViol() >= 10 {
+			continue
+		}
+		rng := core.NewRng(c.Seed, "C02close", c.Batch, i)
+		e2 := hs.Start(hs.Parse, wire.MessageBufferSize(1<<12))
+		probe := &hs.Prog{Stmts: []*hs.Stmt{{ID: "probe", Cols: textCols(2), Ops: []hs.Op{{K: "row", Vals: []any{"close-during-traffic", strings.Repeat("v", rng.Intn(300))}}, {K: "complete", Tag: "SELECT 1"}}}}}
+		var conns []*tr.Conn
+		for k := 2 + rng.Intn(6); k > 0; k-- {
+			conn := tr.NewConn(&hs.Sess{Default: func(string) *hs.Prog { return probe }})
+			conn.Yield = tr.YieldFn(rng.U64())
+			e2.L.DialConn(conn)
+			in := pg.Startup([][2]string{{"user", "u"}})
+			for m := rng.Intn(6); m > 0; m-- {
+				switch rng.Intn(5) {
+				case 0: // an oversized message: answered before any command is admitted
+					in = append(in, pg.Raw(core.Pick(rng, []byte("QPd~")), rng.Bytes(1<<12+1+rng.Intn(3000)))...)
+				case 1:
+					in = append(in, append(append(append(pg.Parse("", "q", nil), pg.Bind("", "", nil, nil, nil)...), pg.Execute("", 0)...), pg.Sync()...)...)
+				default:
+					in = append(in, pg.Query("q")...)
+				}
+			}
+			if rng.Bool() {
+				conn.Send(in)
+			} else {
+				conn.SendEach(in)
+			}
+			conns = append(conns, conn)
+		}
+		// every connection has been accepted (a connection still in the backlog when the listener closes
+		// is never served at all); how far each one has got when Close arrives is left to the scheduler
+		for spin := 0; e2.L.Accepted() < int64(len(conns)) && spin < 1000000; spin++ {
+			runtime.Gosched()
+		}
+		for y := rng.Intn(4); y > 0; y-- {
+			runtime.Gosched()
+		}
+		if rng.Intn(3) == 0 {
+			conns[0].Quiesce()
+		}
+		e2.Srv.Close()
+		for _, conn := range conns {
+			conn.Quiesce()
+			conn.CloseWrite()
+			conn.WaitClosed()
+			strict(conn, "Server.Close while the connection is being served", map[string]any{"workload": "close during traffic"})
+		}
+		<-e2.ServeErr
+		c.Count("close_during_traffic_rounds", 1)
+		c.Eval(fmt.Sprintf("close during traffic %d", len(conns)), true)
 	}
 	// (c) buffer.Writer API model
 	for i := 0; i < nwr; i++ {
